@@ -157,7 +157,9 @@ class DataSaver(BaseLearner):
         self,
         data: tuple[Any, OrderedDict[Any, Any]],
     ) -> None:
-        learner_data, self.extra_data = data
+        learner_data, extra_data = data
+        # a copy: `copy_from` hands over the other saver's own dictionary
+        self.extra_data = OrderedDict(extra_data)
         self.learner._set_data(learner_data)
 
     def __getstate__(self) -> tuple[LearnerType, Callable, OrderedDict]:
